@@ -20,6 +20,31 @@ def rand_lsh(rng):
                 threshold=rng.choice([0.0, 0.1, 0.3, 0.5, 0.8, 1.0]))
 
 
+EPS40 = 2.0 ** -40
+
+
+def twin_threshold_cfgs(xt, sims, dists):
+    """Type thresholds ON the observed similarities of the twin pairs (some 2^-40 next to them): the distinct values in descending
+    order, four per configuration (t1 > t2 > t3 > t4; padded below the lowest one).  Every observed value is a band edge in exactly
+    one configuration and stays at or above Type-4 there (the lowest edge is never moved above the value), so the pair is reported
+    by the unbatched loop and any change of its similarity in another comparison order changes its type or drops it.  The
+    reporting threshold is unset or ON the Type-4 edge, the maximum edit distance unset or ON / just above the largest observed
+    distance."""
+    vals = sorted({s for s in sims if 0.2 < s < 1.0}, reverse=True)
+    dmax = max(dists) if dists else 0.0
+    out = []
+    for c in range(0, len(vals), 4):
+        chunk = vals[c:c + 4]
+        while len(chunk) < 4:
+            chunk.append(chunk[-1] - 0.03)
+        t = [chunk[k] + xt.choice([0.0, 0.0, EPS40, -EPS40]) for k in range(3)] + [chunk[3] + xt.choice([0.0, 0.0, -EPS40])]
+        if not (1.0 >= t[0] > t[1] > t[2] > t[3] > 0.0):
+            t = chunk
+        out.append(dict(Type1Threshold=t[0], Type2Threshold=t[1], Type3Threshold=t[2], Type4Threshold=t[3],
+                        SimilarityThreshold=xt.choice([0, 0, t[3]]), MaxEditDistance=xt.choice([0, 0, dmax, dmax + EPS40])))
+    return out
+
+
 def pset(ps, oriented=False):
     if oriented:
         return {(p["i"], p["j"], p["sim"], p["dist"], p["type"]) for p in ps}
@@ -35,7 +60,8 @@ def main(tier):
     stats = dict(fragment_sets=0, fragments_min=10 ** 9, fragments_max=0, lsh_runs=0, lsh_pairs=0, identical_pairs_checked=0,
                  rows_gt_hashes_runs=0, batch_runs=0, truncated_runs=0, model_lsh=0, model_batch=0, bandkey_fragments=0,
                  exhaustive_pairs=0, cli_lsh_runs=0, big_sets=0, ratio_sets=0, tiny_sets=0, prefilter_pairs_both_orders=0, prefilter_classes={},
-                 ratio_pairs_by_batch={}, model_prefilter_cells=0, lsh_fallback_runs=0, docstring_copies={})
+                 ratio_pairs_by_batch={}, model_prefilter_cells=0, lsh_fallback_runs=0, docstring_copies={}, twin_sets=0, twin_pairs_decided=0,
+                 twin_pairs_by_batch={}, twin_lsh_pairs=0)
     if not ck.go_ok:
         ck.finish()
     import time
@@ -119,9 +145,74 @@ def main(tier):
     n_ratio = 6 if thorough else 2
     sets += [make_ratio_set(k) for k in range(n_ratio)]
     sets += [make_tiny_set(k) for k in ("one", "none", "limit0", "micro")]
+
+    # ---- related-construct twins (every entry of areRelatedNodeTypes, read from apted_cost.go, plus one same-category kind) on both
+    # sides of batch boundaries, in both source orders; thresholds on the similarities a lenient probe run observed.  Drawn from a
+    # further side generator: the sets above stay what they were.
+    xt = cc.side_rng(xr)
+    related = cc.related_pairs_from_source(lib.REPO)
+    if related is None:
+        ck.broken_ties.append("relatedPairs table of PythonCostModel.areRelatedNodeTypes not found in apted_cost.go")
+        related = list(cc.RELATED_TO_KIND)
+    twin_kinds = []
+    for pr in related:
+        k = cc.RELATED_TO_KIND.get(tuple(pr)) or cc.RELATED_TO_KIND.get(tuple(reversed(pr)))
+        if k is None:
+            ck.broken_ties.append("areRelatedNodeTypes lists %s which the twin library does not cover" % (pr,))
+        elif k not in twin_kinds:
+            twin_kinds.append(k)
+    stats["twin_related_kinds"] = list(twin_kinds)
+    plans = []
+    for rep in range(3 if thorough else 1):
+        for layout in ("spread", "adjacent"):
+            ks = twin_kinds + [xt.choice(["setlist", "setcomp", "whilefor"])]
+            xt.shuffle(ks)
+            # four kinds per set: four observed similarities = the four type thresholds of one configuration
+            for g in range(0, len(ks), 4):
+                files, meta = cc.gen_twin_batches(xt, ks[g:g + 4], layout, fillers=0)
+                base_cfg = dict(MinLines=5, MinNodes=5, SkipDocstrings=True, MaxClonePairs=10000, CostModelType=xt.choice(["", "python", "weighted"]),
+                                BatchSizeThreshold=xt.choice([2, 3]), BatchSizeLarge=xt.choice([7, 2, 3, 0]), BatchSizeSmall=xt.choice([2, 3, 50, 0]),
+                                LargeProjectSize=xt.choice([500, 10, 0]))
+                plans.append(dict(files=files, meta=meta, layout=layout, cfg=base_cfg))
+
+    def run_twin_sets():
+        """Probe (lenient thresholds), then the sets with thresholds on the observed similarities; runs beside the main driver call."""
+        lenient = dict(Type1Threshold=0.99, Type2Threshold=0.98, Type3Threshold=0.97, Type4Threshold=0.05, SimilarityThreshold=0.05, MaxEditDistance=0)
+        tpres = [cc.norm(x) for x in lib.driver([cc.driver_req(pl["files"], dict(pl["cfg"], **lenient), table="none") for pl in plans], timeout=900)]
+        tsets = []
+        for pl, pr in zip(plans, tpres):
+            if "error" in pr or pr.get("parse_errors"):
+                ck.broken_ties.append("driver probe of the twin set failed: %s" % (pr.get("error") or pr.get("parse_errors")))
+                continue
+            pos = {(f["file"], f["start"]): i for i, f in enumerate(pr["frags"])}
+            seen = {(p["i"], p["j"]): p for p in pr["exh_raw"]}
+            sims, dists = [], []
+            for k, m in pl["meta"].items():
+                ia, ib, ic = (pos.get((m[r], m["start"])) for r in "ABC")
+                for i, j in ((ia, ib), (ib, ic)):
+                    p = None if i is None or j is None else seen.get((min(i, j), max(i, j)))
+                    if p is None:
+                        if k in twin_kinds:
+                            ck.broken_ties.append("generator: the %s twins (x%d, %d filler statements) are not a pair the unbatched comparison reports at Type-4 0.05"
+                                                  % (k, m["occ"], m["n_fill"]))
+                        continue
+                    sims.append(p["sim"])
+                    dists.append(p["dist"])
+            for tc in twin_threshold_cfgs(xt, sims, dists):
+                tsets.append(dict(texts=dict(pl["files"]), files=pl["files"], cfg=dict(pl["cfg"], **tc), big=False, kind="twins", meta=pl["meta"], layout=pl["layout"],
+                                  lsh=[dict(bands=64, rows=1, hashes=64, threshold=0.0), rand_lsh(xt)], batch_sizes=[1, 2, 3, 7]))
+        treqs = [cc.driver_req(s["files"], s["cfg"], batch_sizes=s["batch_sizes"], lsh=s["lsh"], table="upper" if i % 2 else "full") for i, s in enumerate(tsets)]
+        tres = [cc.norm(x) for x in lib.driver(treqs, timeout=1800)] if treqs else []
+        lib.log("twin sets %.1fs" % (time.time() - t0))
+        return tsets, treqs, tres
+
+    import concurrent.futures
+    twin_future = concurrent.futures.ThreadPoolExecutor(max_workers=1).submit(run_twin_sets)
     reqs = [cc.driver_req(s["files"], s["cfg"], batch_sizes=[1, 7, 100] if s["big"] else s.get("batch_sizes", BATCH_SIZES), lsh=s["lsh"][:2] if s["big"] else s["lsh"],
                           table="upper" if (s["big"] or i % 2) else "full") for i, s in enumerate(sets)]
     results = [cc.norm(x) for x in lib.driver(reqs, timeout=1800)]
+    tsets, treqs, tres = twin_future.result()
+    sets, reqs, results = sets + tsets, reqs + treqs, results + tres
     lib.log("driver %.1fs" % (time.time() - t0))
 
     jobs = []
@@ -148,6 +239,23 @@ def main(tier):
         truncated = len(exh) > maxp
         stats["truncated_runs"] += truncated
         replay = {"kind": "driver", "request": reqs[si]}
+
+        # ---------------- twins: which related-construct pairs this run decides, and on which side of a batch boundary
+        if s["kind"] == "twins":
+            stats["twin_sets"] += 1
+            pos = {(f["file"], f["start"]): i for i, f in enumerate(frags)}
+            exh_ij = {(p["i"], p["j"]) for p in res["exh_raw"]}
+            for k, m in s["meta"].items():
+                ia, ib, ic = (pos.get((m[r], m["start"])) for r in "ABC")
+                for order, (i, j) in (("variant0-first", (ia, ib)), ("variant1-first", (ib, ic))):
+                    if i is None or j is None or (min(i, j), max(i, j)) not in exh_ij:
+                        continue
+                    i, j = min(i, j), max(i, j)
+                    stats["twin_pairs_decided"] += 1
+                    stats["twin_lsh_pairs"] += sum(1 for lr in res["lsh"] for p in lr["pairs"] if (p["i"], p["j"]) == (i, j))
+                    for bs in s["batch_sizes"]:
+                        key = "%s %s %s" % (k, order, "same-batch" if i // bs == j // bs else "cross-batch")
+                        stats["twin_pairs_by_batch"][key] = stats["twin_pairs_by_batch"].get(key, 0) + 1
 
         # ---------------- SkipDocstrings: a copy that differs in its docstring only is structurally identical (apted_tree.go isDocstring)
         by_start = {(f["file"], f["start"]): i for i, f in enumerate(frags)}
@@ -408,6 +516,11 @@ def main(tier):
             missing.append("a same-batch pair with a Size ratio in (1.5, 2)")
         if missing:
             ck.broken_ties.append("generator: the size/line ratio lattice of the pre-filters was not reached: %s" % missing)
+        missing = ["%s %s %s" % (k, o, b) for k in twin_kinds for o in ("variant0-first", "variant1-first") for b in ("same-batch", "cross-batch")
+                   if not stats["twin_pairs_by_batch"].get("%s %s %s" % (k, o, b))]
+        if missing or not stats["twin_lsh_pairs"]:
+            ck.broken_ties.append("generator: related-construct twins were not decided on both sides of a batch boundary in both source orders "
+                                  "(or never by the LSH path): %s, LSH reports of twin pairs %d" % (missing, stats["twin_lsh_pairs"]))
 
     # ---------------- command line: [clones] lsh_enabled = true / false on the same project
     base = lib.fresh_dir("c09")
@@ -460,7 +573,13 @@ def main(tier):
         "rule": "generated fragment sets (identical groups, renamed and edited near-duplicates, unrelated fragments, docstring-only copies; %d..%d fragments; "
                 "plus the size-ratio family: try/except/finally functions with identical handlers, Size ratios exactly 1.5, inside (1.5, 5/3), exactly 5/3, inside (5/3, 2), "
                 "exactly 2 at similarity 0.75..0.9, smaller-first and larger-first, same batch and different batches for batch sizes 2, 3, 7 and more than 50 positions apart "
-                "in the big set; a line-count lattice 2x-1 / 2x / 2x+1 in both orders; sets of 0, 1 and 2 fragments, MaxClonePairs 0, 2-3 node fragments) x "
+                "in the big set; a line-count lattice 2x-1 / 2x / 2x+1 in both orders; sets of 0, 1 and 2 fragments, MaxClonePairs 0, 2-3 node fragments; "
+                "related-construct twins: for every entry of PythonCostModel.areRelatedNodeTypes (read from apted_cost.go: def/async def, for/async for, with/async with, "
+                "BinOp/UnaryOp, List/Tuple, ListComp/GeneratorExp, If/IfExp) and one same-category kind a function, its twin and a verbatim copy of the function, i.e. the "
+                "twin pair with either variant first, in the layouts spread (every twin pair more than a batch apart for batch sizes 1-3) and adjacent (every twin pair inside "
+                "one batch for batch size 3), python / weighted / default-named cost model, the four type thresholds ON the four similarities a lenient probe run observed "
+                "(+-2^-40), reporting threshold unset or on the Type-4 edge, MaxEditDistance unset or on / next to the largest observed distance, BatchSizeThreshold 2 or 3; "
+                "the run fails if some related kind was not decided same-batch and cross-batch in both source orders or never by the LSH path) x "
                 "LSH grid (bands, rows incl. rows > hashes and non-positive defaults, hash counts, thresholds incl. out of [0,1]) x batch sizes %s + "
                 "the public entry point with varied batch thresholds x pair limits (incl. truncating ones); CLI with lsh_enabled true/false; "
                 "distinct = exhaustive pairs compared" % (stats["fragments_min"], stats["fragments_max"], BATCH_SIZES),
